@@ -211,7 +211,8 @@ type gShape struct {
 	thr    []string // items
 	halts  []string
 	closes []string
-	acts   []int64 // offsets at which something happens
+	acts   []int64    // offsets at which something happens
+	ivs    [][2]int64 // throttle intervals (end -1 = open)
 }
 
 func item(xs []string) string {
@@ -265,14 +266,23 @@ func validShape(r *core.Rand, id string, fast bool, span int) gShape {
 		}
 		thr = append(thr, fmt.Sprintf("%s/%d", core.HexS(stS+"-"+enS), bwOf()))
 		s.acts = append(s.acts, st)
+		s.ivs = append(s.ivs, [2]int64{st, en})
 		if en >= 0 {
 			s.acts = append(s.acts, en)
 		}
 	}
-	// shuffle (the code sorts them)
-	for i := len(thr) - 1; i > 0; i-- {
-		j := r.Intn(i + 1)
-		thr[i], thr[j] = thr[j], thr[i]
+	// the order they are posted in (the code sorts them): ascending, descending, shuffled
+	switch r.Intn(4) {
+	case 0:
+	case 1:
+		for i, j := 0, len(thr)-1; i < j; i, j = i+1, j-1 {
+			thr[i], thr[j] = thr[j], thr[i]
+		}
+	default:
+		for i := len(thr) - 1; i > 0; i-- {
+			j := r.Intn(i + 1)
+			thr[i], thr[j] = thr[j], thr[i]
+		}
 	}
 	s.thr = thr
 	off := func() int64 {
@@ -431,15 +441,25 @@ func responseI(r *core.Rand, ops *[]string, id string, g *genCfg, fast bool, spa
 		u = g.shapes[r.Intn(len(g.shapes))].id
 	}
 	var acts []int64
+	var ivs [][2]int64
 	if g != nil {
 		for _, s := range g.shapes {
 			if s.id == u {
-				acts = s.acts
+				acts, ivs = s.acts, s.ivs
 			}
 		}
 	}
 	rs := int64(0)
-	switch r.Intn(6) {
+	switch r.Intn(7) {
+	case 6: // strictly inside a throttle interval (or at its first / last byte)
+		if len(ivs) > 0 {
+			iv := ivs[r.Intn(len(ivs))]
+			en := iv[1]
+			if en < 0 {
+				en = iv[0] + int64(span)
+			}
+			rs = iv[0] + int64(r.Intn(int(en-iv[0])))
+		}
 	case 0, 1:
 		rs = int64(r.Intn(span))
 	case 2:
@@ -540,9 +560,9 @@ func responseI(r *core.Rand, ops *[]string, id string, g *genCfg, fast bool, spa
 func (P) Gen(r *core.Rand, tier string, emit func([]string)) {
 	nMain, nCfg, nPar, nSlow := 70, 40, 6, 1
 	nInter, nFlight, nE2E := 50, 30, 24
-	nTimed, nFault := 3, 30
+	nTimed, nFault, nRepeat := 3, 30, 30
 	if tier == "thorough" {
-		nTimed, nFault = 30, 500
+		nTimed, nFault, nRepeat = 30, 500, 500
 		nMain, nCfg, nPar, nSlow = 1500, 600, 60, 4
 		nInter, nFlight, nE2E = 1000, 500, 400
 	}
@@ -828,6 +848,67 @@ func (P) Gen(r *core.Rand, tier string, emit func([]string)) {
 		ops = append(ops, "leak")
 		emit(ops)
 	}
+	// K. configuration histories with REPEATS: the same body is posted again after its counted actions were consumed
+	// (also after a refused one, also A B A); an accepted configuration applies in full - fresh counts - to the
+	// connections accepted afterwards
+	for i := 0; i < nRepeat; i++ {
+		fast := r.Chance(1, 2)
+		span := r.Pick2(60, 300)
+		gA := genConfig(r, true, fast, span)
+		for len(gA.shapes) == 0 {
+			gA = genConfig(r, true, fast, span)
+		}
+		// a counted close (and sometimes a counted halt) early in the first shape
+		sh := &gA.shapes[0]
+		k, cnt := r.Intn(30), r.Range(1, 2)
+		sh.closes = append(sh.closes, fmt.Sprintf("%d/%d", k, cnt))
+		sh.acts = append(sh.acts, int64(k))
+		if r.Bool() {
+			sh.halts = append(sh.halts, fmt.Sprintf("%d/%d/1", r.Intn(k+1), r.Intn(3)))
+		}
+		toks := strings.Fields(gA.tok)
+		gA.tok = strings.Join(toks[:2], " ")
+		for _, s := range gA.shapes {
+			gA.tok += " " + s.tok()
+		}
+		e2e := r.Chance(1, 4)
+		nconn := 0
+		hit := func(ops *[]string) { // one response on a fresh connection that runs into the counted close
+			id := fmt.Sprintf("k%d", nconn)
+			nconn++
+			if e2e {
+				*ops = append(*ops, "dial "+id, fmt.Sprintf("req %s %s - %d", id, sh.id, k+r.Range(1, 40)))
+				return
+			}
+			hl := r.Intn(20)
+			f := "-"
+			if fast {
+				f = strconv.Itoa(r.Range(1, 16))
+			}
+			*ops = append(*ops, "conn "+id, fmt.Sprintf("ctx %s %s 0 %d %s", id, sh.id, hl, f), "write "+id+" "+core.Hex(r.Bytes(hl+k+r.Range(1, 40))))
+		}
+		ops := []string{gA.tok}
+		for j := 0; j < cnt+r.Intn(2); j++ {
+			hit(&ops)
+		}
+		switch r.Intn(4) {
+		case 0: // A, refused, A
+			ops = append(ops, genConfig(r, false, fast, span).tok)
+		case 1: // A, B, A
+			ops = append(ops, genConfig(r, true, fast, span).tok)
+			if r.Bool() {
+				hit(&ops)
+			}
+		}
+		ops = append(ops, gA.tok) // the byte-identical body again
+		hit(&ops)
+		if r.Bool() {
+			ops = append(ops, gA.tok)
+			hit(&ops)
+		}
+		ops = append(ops, "leak")
+		emit(ops)
+	}
 	// E. the resource clause in its strict reading (global shape buckets of replaced configurations)
 	emit([]string{"config d:none s:a:0:-:5/1/1:-", "conn k0", "config d:none s:b:0:-:-:9/1", "conn k1", "close k0", "close k1", "leak strict"})
 }
@@ -848,16 +929,27 @@ func request(r *core.Rand, id string, g *genCfg, span int) (string, bool) {
 		u = g.shapes[r.Intn(len(g.shapes))].id
 	}
 	var acts []int64
+	var ivs [][2]int64
 	if g != nil {
 		for _, s := range g.shapes {
 			if s.id == u {
-				acts = s.acts
+				acts, ivs = s.acts, s.ivs
 			}
 		}
 	}
 	rs := int64(0)
 	R := "-"
-	switch r.Intn(8) {
+	switch r.Intn(9) {
+	case 8: // a 206 whose Content-Range start lies inside a throttle interval
+		if len(ivs) > 0 {
+			iv := ivs[r.Intn(len(ivs))]
+			en := iv[1]
+			if en < 0 {
+				en = iv[0] + int64(span)
+			}
+			rs = iv[0] + int64(r.Intn(int(en-iv[0])))
+			R = strconv.FormatInt(rs, 10)
+		}
 	case 0, 1:
 		rs = int64(r.Intn(span))
 		R = strconv.FormatInt(rs, 10)
